@@ -2919,5 +2919,302 @@ fn handle_packet(
 
 } // verus!
 
+// ======================================================================================
+// 40_reader: src/de/packet_reader.rs — PacketReader (inbound framing)
+// ======================================================================================
+verus! {
+
+pub struct PacketReader<'a> {
+    pub buffer: &'a mut [u8],
+    pub read_bytes: usize,
+    pub packet_length: Option<usize>,
+}
+
+pub open spec fn rbuf(r: PacketReader) -> Seq<u8> { r.buffer@ }
+
+/// the decoder as a function of the packet bytes (leaf: Kani, bounded — see kani/de.rs)
+pub uninterp spec fn parse_packet(b: Seq<u8>) -> Result<ReceivedPacket<'static>, ProtocolError>;
+
+impl<'a> ReceivedPacket<'a> {
+    #[verifier::external_body]
+    pub fn from_buffer(buf: &'a [u8]) -> (r: Result<Self, ProtocolError>)
+        ensures r == parse_packet(buf@),
+            r matches Err(e) ==> (e is MalformedPacket || e is Deserialization),
+    { unimplemented!() }
+}
+
+/// value of the (at most four) remaining-length bytes b[1..1+k], little-endian base 128
+pub open spec fn varint_val(b: Seq<u8>, k: int) -> int
+    decreases k
+{
+    if k <= 0 { 0 } else { varint_val(b, k - 1) + ((b[k] & 0x7F) as int) * pow128(k - 1) }
+}
+pub open spec fn pow128(k: int) -> int { if k <= 0 { 1 } else if k == 1 { 128 } else if k == 2 { 16384 } else if k == 3 { 2097152 } else { 268435456 } }
+/// number of length bytes if b[1..n] contains a terminating length byte within 4 bytes, else 0
+pub open spec fn len_bytes(b: Seq<u8>, n: int) -> int {
+    if n >= 2 && b[1] & 0x80 == 0 { 1 }
+    else if n >= 3 && b[2] & 0x80 == 0 { 2 }
+    else if n >= 4 && b[3] & 0x80 == 0 { 3 }
+    else if n >= 5 && b[4] & 0x80 == 0 { 4 }
+    else { 0 }
+}
+/// total packet length announced by the fixed header held in b[..n] (None: not yet known)
+pub open spec fn announced(b: Seq<u8>, n: int) -> Option<int> {
+    let k = len_bytes(b, n);
+    if k == 0 { None } else { Some(1 + k + varint_val(b, k)) }
+}
+
+pub open spec fn reader_inv(r: PacketReader) -> bool {
+    &&& r.read_bytes <= rbuf(r).len()
+    &&& rbuf(r).len() <= usize::MAX
+    &&& match r.packet_length {
+            Some(t) => r.read_bytes <= t,
+            // while the length is unknown only the last committed byte may be a terminating length byte
+            None => r.read_bytes <= 5 && hdr_cont(rbuf(r), r.read_bytes - 1),
+        }
+}
+/// bytes 1..n-1 all carry the continuation bit
+pub open spec fn hdr_cont(b: Seq<u8>, n: int) -> bool {
+    forall|j: int| 1 <= j < n ==> #[trigger] b[j] & 0x80 != 0
+}
+/// after a successful probe that left the length unknown, no committed byte terminates it
+pub open spec fn probed(r: PacketReader) -> bool {
+    r.packet_length is None ==> hdr_cont(rbuf(r), r.read_bytes as int)
+}
+/// size of the window `receive_buffer` hands out next
+pub open spec fn window(r: PacketReader) -> int {
+    match r.packet_length { Some(t) => t - r.read_bytes, None => 1 }
+}
+
+pub open spec fn rcap(r: PacketReader) -> usize { r.buffer.len() }
+pub proof fn lemma_rbuf_bound(r: PacketReader) ensures rbuf(r).len() <= usize::MAX { assert(rbuf(r).len() == rcap(r)); }
+/// one term of the remaining-length sum, exactly as the code computes it
+pub open spec fn vterm(v: u8, index: usize) -> usize { ((v & 0x7F) as usize) << (index * 7) }
+
+pub proof fn lemma_announced_none(b: Seq<u8>, n: int)
+    requires 0 <= n <= 5, announced(b, n) is None
+    ensures hdr_cont(b, n)
+{
+    assert forall|j: int| 1 <= j < n implies #[trigger] b[j] & 0x80 != 0 by {
+        if j == 1 {} else if j == 2 {} else if j == 3 {} else {}
+    }
+}
+pub proof fn lemma_vterm(v: u8, i: usize)
+    requires i <= 3
+    ensures vterm(v, i) == ((v & 0x7F) as int) * pow128(i as int), vterm(v, i) <= 127 * pow128(i as int)
+{
+    let x = (v & 0x7F) as usize;
+    assert(x <= 127) by (bit_vector) requires x == (v & 0x7F) as usize;
+    if i == 0 { assert(x << 0usize == x) by (bit_vector); }
+    else if i == 1 { assert(x << 7usize == x * 128) by (bit_vector) requires x <= 127; }
+    else if i == 2 { assert(x << 14usize == x * 16384) by (bit_vector) requires x <= 127; }
+    else { assert(x << 21usize == x * 2097152) by (bit_vector) requires x <= 127; }
+}
+
+impl<'a> PacketReader<'a> {
+fn new(buffer: &'a mut [u8]) -> (r: PacketReader<'a>)
+    ensures
+        r.read_bytes == 0 && r.packet_length is None && rbuf(r) == old(buffer)@ && reader_inv(r),
+{
+        proof { assert(buffer@.len() == buffer.len()); }
+
+
+        PacketReader {
+            buffer,
+            read_bytes: 0,
+            packet_length: None,
+        }
+    }
+
+fn capacity(&self) -> (r: usize)
+    ensures
+        r == rbuf(*self).len(),
+{
+        self.buffer.len()
+    }
+
+fn commit(&mut self, count: usize)
+    requires
+        reader_inv(*old(self)),
+        old(self).read_bytes + count <= rbuf(*old(self)).len()
+            && (old(self).packet_length matches Some(t) ==> old(self).read_bytes + count <= t)
+            && (old(self).packet_length is None ==> count <= 1 && old(self).read_bytes <= 4 && probed(*old(self))),
+    ensures
+        final(self).read_bytes == old(self).read_bytes + count && final(self).packet_length == old(self).packet_length
+            && rbuf(*final(self)) == rbuf(*old(self)),
+        reader_inv(*final(self)),
+{
+        self.read_bytes += count;
+
+    }
+
+fn packet_available(&self) -> (r: bool)
+    ensures
+        r == (self.packet_length matches Some(t) && self.read_bytes >= t),
+{
+        match self.packet_length {
+            Some(length) => self.read_bytes >= length,
+            None => false,
+        }
+    }
+
+fn reset(&mut self)
+    ensures
+        final(self).read_bytes == 0 && final(self).packet_length is None && rbuf(*final(self)) == rbuf(*old(self)),
+        reader_inv(*final(self)),
+{
+        proof { lemma_rbuf_bound(*self); }
+
+
+
+        self.read_bytes = 0;
+        self.packet_length = None;
+    }
+
+fn probe_fixed_header(&mut self) -> (r: Result<(), ProtocolError>)
+    requires
+        reader_inv(*old(self)) && old(self).packet_length is None,
+    ensures
+        final(self).read_bytes == old(self).read_bytes && rbuf(*final(self)) == rbuf(*old(self)),
+        old(self).read_bytes <= 1 ==> r is Ok && final(self).packet_length is None,
+        old(self).read_bytes > 1 ==> (match announced(rbuf(*old(self)), old(self).read_bytes as int) {
+            Some(t) => final(self).packet_length == Some(t as usize) && r is Ok,
+            None => final(self).packet_length is None && (r is Err <==> old(self).read_bytes >= 5),
+        }),
+        r matches Err(e) ==> e is MalformedPacket,
+        r is Ok ==> reader_inv(*final(self)),
+        r is Ok ==> probed(*final(self)),
+{
+        if self.read_bytes <= 1 {
+            return Ok(());
+        }
+
+        self.packet_length = None;
+
+        let mut packet_length = 0;
+        let __s1 = &self.buffer[1..self.read_bytes]; let mut index: usize = 0;
+        while index < 4 && index < __s1.len() 
+            invariant_except_break
+                self.packet_length is None,
+                forall|j: int| 1 <= j <= index ==> #[trigger] rbuf(*old(self))[j] & 0x80 != 0,
+                packet_length == varint_val(rbuf(*old(self)), index as int),
+                packet_length < pow128(index as int),
+            invariant
+                index <= 4, index <= __s1@.len(),
+                __s1@ == rbuf(*old(self)).subrange(1, old(self).read_bytes as int),
+                self.read_bytes == old(self).read_bytes, rbuf(*self) == rbuf(*old(self)),
+                2 <= self.read_bytes <= 5, self.read_bytes <= rbuf(*self).len(), rbuf(*self).len() <= usize::MAX,
+                hdr_cont(rbuf(*old(self)), old(self).read_bytes - 1),
+            ensures
+                (match announced(rbuf(*old(self)), old(self).read_bytes as int) {
+                    Some(t) => self.packet_length == Some(t as usize) && self.read_bytes <= t <= usize::MAX,
+                    None => self.packet_length is None,
+                }),
+            decreases 4 - index
+{
+            let value = __s1[index];
+            proof {
+                lemma_vterm(value, index);
+                assert(__s1@[index as int] == rbuf(*old(self))[index as int + 1]);
+            }
+
+            packet_length += ((value & 0x7F) as usize) << (index * 7);
+            if (value & 0x80) == 0 {
+                let length_size_bytes = 1 + index;
+
+                let header_size_bytes = 1 + length_size_bytes;
+                self.packet_length = Some(header_size_bytes + packet_length);
+
+                break;
+            }
+            index += 1;
+        }
+
+        if self.read_bytes >= 5 && self.packet_length.is_none() {
+
+            return Err(ProtocolError::MalformedPacket);
+        }
+        proof { if self.packet_length is None { lemma_announced_none(rbuf(*self), self.read_bytes as int); } }
+
+        Ok(())
+    }
+
+fn receive_buffer(&mut self) -> (r: Result<&mut [u8], ProtocolError>)
+    requires
+        reader_inv(*old(self)),
+    ensures
+        final(self).read_bytes == old(self).read_bytes && rbuf(*final(self)).len() == rbuf(*old(self)).len()
+            && (old(self).packet_length is Some ==> final(self).packet_length == old(self).packet_length)
+            && (old(self).packet_length is None && old(self).read_bytes > 1 && r is Ok ==>
+                    final(self).packet_length == (match announced(rbuf(*old(self)), old(self).read_bytes as int) { Some(t) => Some(t as usize), None => None::<usize> }))
+            && (old(self).packet_length is None && old(self).read_bytes <= 1 ==> final(self).packet_length is None),
+        r matches Ok(w) ==> w@.len() == window(*final(self)) && old(self).read_bytes + w@.len() <= rbuf(*old(self)).len(),
+        r is Ok ==> rbuf(*final(self)).subrange(0, old(self).read_bytes as int) == rbuf(*old(self)).subrange(0, old(self).read_bytes as int),
+        r is Ok ==> reader_inv(*final(self)) && probed(*final(self)),
+        r matches Err(e) ==> e is MalformedPacket,
+        (final(self).packet_length matches Some(t) && t > rbuf(*old(self)).len()) ==> r is Err,
+{
+        if self.packet_length.is_none() {
+            (match self.probe_fixed_header() { Ok(__v) => __v, Err(__e) => return Err(From::from(__e)) });
+        }
+
+        let end = if let Some(packet_length) = &self.packet_length {
+            *packet_length
+        } else {
+            self.read_bytes + 1
+        };
+
+        if end <= self.buffer.len() {
+
+            Ok(&mut self.buffer[self.read_bytes..end])
+        } else {
+
+            Err(ProtocolError::MalformedPacket)
+        }
+    }
+
+fn take_packet(&mut self) -> (r: Result<(usize, ReceivedPacket<'_>), ProtocolError>)
+    requires
+        old(self).packet_length matches Some(t) ==> t <= rbuf(*old(self)).len(),
+    ensures
+        rbuf(*final(self)) == rbuf(*old(self)) && (old(self).packet_length is Some ==>
+            final(self).read_bytes == 0 && final(self).packet_length is None && reader_inv(*final(self)))
+            && (old(self).packet_length is None ==> final(self).read_bytes == old(self).read_bytes && final(self).packet_length is None),
+        r == (match old(self).packet_length {
+            None => Err::<(usize, ReceivedPacket<'_>), ProtocolError>(ProtocolError::MalformedPacket),
+            Some(t) => match parse_packet(rbuf(*old(self)).subrange(0, t as int)) {
+                Ok(p) => Ok::<(usize, ReceivedPacket<'_>), ProtocolError>((t, p)),
+                Err(e) => Err::<(usize, ReceivedPacket<'_>), ProtocolError>(e),
+            },
+        }),
+{
+        let packet_length = *(match self.packet_length.as_ref().ok_or(ProtocolError::MalformedPacket) { Ok(__v) => __v, Err(__e) => return Err(From::from(__e)) });
+
+        self.reset();
+
+        Ok((
+            packet_length,
+            (match ReceivedPacket::from_buffer(&self.buffer[..packet_length]) { Ok(__v) => __v, Err(__e) => return Err(From::from(__e)) }),
+        ))
+    }
+
+fn received_packet(&mut self) -> (r: Result<ReceivedPacket<'_>, ProtocolError>)
+    requires
+        old(self).packet_length matches Some(t) ==> t <= rbuf(*old(self)).len(),
+    ensures
+        rbuf(*final(self)) == rbuf(*old(self)) && (old(self).packet_length is Some ==>
+            final(self).read_bytes == 0 && final(self).packet_length is None && reader_inv(*final(self)))
+            && (old(self).packet_length is None ==> final(self).read_bytes == old(self).read_bytes && final(self).packet_length is None),
+        r == (match old(self).packet_length {
+            None => Err::<ReceivedPacket<'_>, ProtocolError>(ProtocolError::MalformedPacket),
+            Some(t) => parse_packet(rbuf(*old(self)).subrange(0, t as int)),
+        }),
+{
+        (match self.take_packet() { Ok((_, packet)) => Ok(packet), Err(__e) => Err(__e) })
+    }
+}
+
+} // verus!
+
 
 fn main() {}
